@@ -22,7 +22,7 @@ import ddsmt_env  # noqa: E402
 CH = {
     'LP': '(', 'RP': ')', 'SP': ' ', 'TAB': '\t', 'LF': '\n', 'CR': '\r',
     'DQ': '"', 'BAR': '|', 'SEMI': ';', 'A': 'b', 'D': '0', 'HASH': '#',
-    'COLON': ':', 'MINUS': '-'
+    'COLON': ':', 'MINUS': '-', 'BS': '\\'
 }
 
 CONFIGS = {
